@@ -711,6 +711,9 @@ class World:
             rec.tols = src.tols
             rec.ulp = src.ulp
             rec.strict = src.strict
+        elif rec.kind == "A":
+            rec.tols = set(src.tols)        # the copy carries a copy of the cached length and its tolerance
+            rec.strict = src.strict
         self.hash_sweep(idx)
         return "ok"
 
@@ -914,6 +917,49 @@ class World:
         p, ss = self.paths[op["p"]].obj, list(op["segs"])
         return self._mutate(idx, op, lambda: p.extend([self._obj(s) for s in ss]),
                             lambda m: m.extend(ss), "extend")
+
+    def op_extend_failing(self, idx, op, entry):
+        """p.extend(it) where the lazy iterable raises after yielding `k` segments: what was yielded is in
+        the path (list.extend semantics), and the path must be coherent about it"""
+        if not self._have(p=[op["p"]], s=op["segs"]):
+            return "skipped"
+        p, ss, k = self.paths[op["p"]].obj, list(op["segs"]), int(op["k"])
+        use_iadd = bool(op.get("iadd"))
+
+        def gen():
+            for j, sid in enumerate(ss):
+                if j == k:
+                    raise ValueError("iterable failed")
+                yield self._obj(sid)
+
+        def impl():
+            if use_iadd:
+                q = p
+                q += gen()
+            else:
+                p.extend(gen())
+
+        def model(m):
+            m.extend(ss[:k])
+            raise ValueError
+        self.probe("extend_with_failing_iterable")
+        pr = self.paths[op["p"]]
+        pre = list(pr.model)
+        st = self._mutate(idx, op, impl, lambda m: m.extend(ss[:k]), "extend_failing")
+        return st
+
+    def op_forget_seg(self, idx, op, entry):
+        """the caller drops its last reference to a free segment: the object dies (and CPython will hand
+        its address to the next object of that size)"""
+        sid = op["s"]
+        if sid not in self.segs or any(sid in pr.model for pr in self.paths.values()):
+            return "skipped"
+        rec = self.segs.pop(sid)
+        rec.group.discard(sid)
+        self._memo.clear()
+        del rec
+        self.probe("segment_object_died")
+        return "ok"
 
     def op_extend_self(self, idx, op, entry):
         if not self._have(p=[op["p"]]):
@@ -1256,14 +1302,12 @@ class World:
         return out
 
     def _note_tol(self, rec, e, m):
-        if rec.kind in ("Q", "C"):
+        if rec.kind in ("Q", "C", "A"):
             rec.tols.add((e, m))
             if self._is_strict(e, m) and m != FAIL_MIN_DEPTH:
                 for sid in rec.group:
                     if sid in self.segs:
                         self.segs[sid].strict = True
-        elif rec.kind == "A":
-            rec.tols.add(DEFAULT_TOL)
 
     def _query_seg(self, idx, op, rec, q, entry):
         self._cur_strict = rec.strict
@@ -1284,7 +1328,7 @@ class World:
                 self._note_tol(rec, *DEFAULT_TOL)
         elif q == "length_tol":
             e, m = float(op["e"]), int(op["m"])
-            if rec.kind == "A" or not self._tol_ok(e, m):
+            if not self._tol_ok(e, m):
                 return "skipped"
             oc = self.impl(lambda: o.length(error=e, min_depth=m))
             legit = self._legit_seg_lengths(rec, e, m)
@@ -1475,7 +1519,7 @@ class World:
             warmed = True
         elif q == "length_tol":
             e, m = float(op["e"]), int(op["m"])
-            if has_arc or not self._tol_ok(e, m):
+            if not self._tol_ok(e, m):
                 return "skipped"
             oc = self.impl(lambda: p.length(error=e, min_depth=m))
             self._judge_path_len(idx, q, pr, oc, e, m, tolerant)
@@ -1839,7 +1883,7 @@ def replay(hist, keep_log=False):
 
 PATH_MUT = ["setitem", "setslice", "insert", "append", "extend", "extend_self", "iadd", "delitem",
             "delslice", "pop", "remove", "reverse", "clear", "set_start", "set_end", "approx_arcs", "set_closed",
-            "setslice_reversed"]
+            "setslice_reversed", "extend_failing", "replace_same_ends"]
 PATH_Q = ["length", "length_T", "length_tol", "length_fail", "point", "T2t", "t2T", "ilength",
           "cropped", "start", "end", "bbox", "d", "iscontinuous", "isclosed", "len", "repr", "eq",
           "eq_twin", "derivative", "unit_tangent", "curvature", "normal", "closed", "isclosedac",
@@ -1896,6 +1940,7 @@ class Gen:
             n += 1
         self.nops = n
         self.npaths = c.choice([1, 1, 2, 3])
+        self.long_path = c.randint(100, 140) if c.random() < 0.025 else 0
         self.nsegs = c.randint(2, 8)
         self.next_sid = 0
         self.next_pid = 0
@@ -1921,6 +1966,20 @@ class Gen:
 
     def pt(self, r):
         return complex(self.coord(r), self.coord(r))
+
+    def colliding(self, r, z):
+        """a point different from z whose Python hash equals hash(z), if there is a cheap one:
+        hash(-1.0) == hash(-2.0) in CPython, component-wise for complex"""
+        if z is None:
+            return None
+        z = complex(z)
+        sw = {-1.0: -2.0, -2.0: -1.0}
+        cands = []
+        if z.real in sw:
+            cands.append(complex(sw[z.real], z.imag))
+        if z.imag in sw:
+            cands.append(complex(z.real, sw[z.imag]))
+        return r.choice(cands) if cands else None
 
     def new_seg_op(self, r, start=None, kind=None):
         k = kind or r.choices(["L", "Q", "C", "A"], weights=self.kind_w)[0]
@@ -2028,6 +2087,18 @@ class Gen:
                 ops.append(o)
             ops.append({"op": "new_path", "id": self.next_pid, "segs": [s["id"] for s in segs]})
             self.next_pid += 1
+        if self.long_path:
+            # a path of well over a hundred segments (implementations may switch algorithm with size)
+            pos = self.pt(r)
+            long_ids = []
+            for _ in range(self.long_path):
+                kind = r.choices(["L", "Q", "C"], weights=[6, 1, 1])[0] if self.quad else "L"
+                o = self.new_seg_op(r, start=pos, kind=kind)
+                pos = cz(o["pts"][-1])
+                ops.append(o)
+                long_ids.append(o["id"])
+            ops.append({"op": "new_path", "id": self.next_pid, "segs": long_ids})
+            self.next_pid += 1
         for k in range(self.npaths):
             n = r.randint(0 if r.random() < 0.1 else 1, min(4, len(segs)))
             a = r.randint(0, len(segs) - n)
@@ -2085,6 +2156,10 @@ class Gen:
         elif cat == "q":
             q = r.choice(self.q_on)
             op = self.pq_op(q, a, w, pr)
+            if op.get("q") == "intersect" and a.random() < 0.6:
+                far = self.pt(a) * 3
+                self.queue.append({"op": a.choice(["set_end", "set_start"]), "p": pid, "z": zc(far)})
+                self.queue.append({"op": "q", "on": "p", "id": pid, "q": "intersect", "other": op["other"]})
             if op.get("q") == "area" and a.random() < 0.5:
                 # orientation-dependent answer: ask, re-orient the path in place, ask again
                 sb = self.next_sid
@@ -2106,7 +2181,13 @@ class Gen:
                 rec = w.segs[sid]
                 attr = a.choice({"L": ("start", "end"), "Q": ("start", "control", "end"),
                                  "C": ("start", "control1", "control2", "end")}[rec.kind])
-                op = {"op": "seg_set", "s": sid, "attr": attr, "z": zc(self.pt(a))}
+                z = self.pt(a)
+                for at2 in ("start", "control", "control1", "control2", "end"):
+                    cz2 = self.colliding(a, getattr(rec.obj, at2)) if hasattr(rec.obj, at2) else None
+                    if cz2 is not None and a.random() < 0.6:
+                        attr, z = at2, cz2          # same hash, another value
+                        break
+                op = {"op": "seg_set", "s": sid, "attr": attr, "z": zc(z)}
                 self.last = None
         if op is None:
             op = self.create_op(r, a, w, pids, sids)
@@ -2156,6 +2237,30 @@ class Gen:
             return {"op": m, "p": pid, "s": a.choice(pool)}
         if m in ("reverse", "clear"):
             return {"op": m, "p": pid}
+        if m == "extend_failing":
+            segs = self.pick_segs(a, w, a.choice([2, 3]))
+            return {"op": m, "p": pid, "segs": segs, "k": a.randrange(1, len(segs)), "iadd": a.random() < 0.4}
+        if m == "replace_same_ends":
+            # a segment leaves the path and dies; a NEW one with the same ends and another interior takes
+            # its place (and, in CPython, very likely its address)
+            pr = w.paths[pid]
+            cand = [i for i, sid in enumerate(pr.model) if pr.model.count(sid) == 1 and w.segs[sid].kind in ("Q", "C")
+                    and not any(sid in o.model for o in w.paths.values() if o is not pr)]
+            if not cand:
+                return {"op": "reverse", "p": pid}
+            i = a.choice(cand)
+            sid = pr.model[i]
+            o = w.segs[sid].obj
+            nid = self.next_sid
+            self.next_sid += 1
+            pts = [complex(z) for z in o.bpoints()]
+            for j in range(1, len(pts) - 1):
+                pts[j] = self.pt(a)
+            self.queue.append({"op": "forget_seg", "s": sid})
+            self.queue.append({"op": "new_seg", "id": nid, "kind": w.segs[sid].kind, "pts": [zc(z) for z in pts]})
+            self.queue.append({"op": "insert", "p": pid, "i": i, "s": nid})
+            self.queue.append({"op": "q", "on": "p", "id": pid, "q": "length"})
+            return {"op": "delitem", "p": pid, "i": i}
         if m == "set_closed":
             return {"op": m, "p": pid, "value": a.random() < 0.7}
         if m == "setslice_reversed":
@@ -2168,7 +2273,14 @@ class Gen:
             return {"op": m, "p": pid, "kind": a.choice(["cubics", "quads"]), "error": a.choice([0.1, 0.1, 0.25, 0.05]),
                     "sbase": sb}
         if m in ("set_start", "set_end"):
-            return {"op": m, "p": pid, "z": zc(self.pt(a))}
+            pr = w.paths[pid]
+            z = self.pt(a)
+            if pr.model:
+                cur = getattr(w.segs[pr.model[0 if m == "set_start" else -1]].obj, m[4:], None)
+                cz2 = self.colliding(a, cur) if cur is not None else None
+                if cz2 is not None and a.random() < 0.5:
+                    z = cz2
+            return {"op": m, "p": pid, "z": zc(z)}
         raise HarnessError(m)
 
     def pq_op(self, q, a, w, pr):
@@ -2212,10 +2324,7 @@ class Gen:
         rec = w.segs[sid]
         op = {"op": "q", "on": "s", "id": sid, "q": q}
         if q == "length_tol":
-            if rec.kind == "A":
-                op["q"] = "length"
-            else:
-                op["e"], op["m"] = self.tol(a)
+            op["e"], op["m"] = self.tol(a)
         elif q == "length_fail":
             if self.quad and a.random() < 0.7:
                 op["q"] = "length"
@@ -2472,7 +2581,6 @@ ASSUMPTIONS = [
     "the oracle is the same code at a different history (a fresh twin); history-independent errors are out of scope (C06 etc.)",
     "numpy/scipy/CPython 3.12 are deterministic for equal inputs in equal processes (measured by selftest-determinism)",
     "segments edited while inside another live path retire that path from the arena (the property promises nothing there)",
-    "Arc is not sent value-returning non-default tolerances (the statement's tolerance clause names Line/Quadratic/Cubic)",
     "on rounding-tainted objects (both ends of a reversed() relation, and paths holding them) answers are compared with rtol 1e-9, joints are inconclusive, and derivative/unit_tangent/curvature/normal/cropped/ilength/area/intersect/radialrange are executed but not judged",
     "after a stricter-than-default tolerance request the object's other length-dependent answers are not judged (its lengths stay judged by membership in the set of legitimately cached values)",
     "intersect runs under a 3 s wall-clock limit and its outcome is not logged (keeps digests independent of real time)",
@@ -2485,6 +2593,7 @@ EXPECTED_PROBES = [
     "closed_flag_path_compared_equal_to_unflagged_path", "natural_RecursionError",
     "path_shares_segments_with_other_path", "path_retired_segment_edited_behind_its_back",
     "path_cloned_with_its_caches", "query_on_path_of_total_length_zero", "arcs_approximated_in_place",
+    "extend_with_failing_iterable", "segment_object_died",
 ]
 
 
